@@ -32,6 +32,14 @@ class System:
                       for k, v in self.inputs.items()]
         self.watch += [(f"helper-arg:{k}", v, cc.digest_value(v))
                        for k, v in self.F.items()]
+        # the arrays of the grid object the user supplied (shared by every
+        # instance built on it, and by all time steps of over_time)
+        fd = self.rel.fd
+        for a in ('x', 'y', 'z', 'r', 'theta', 'phi', 'cartesian_coords',
+                  'spherical_coords', 'xarray', 'yarray', 'zarray'):
+            if isinstance(getattr(fd, a, None), np.ndarray):
+                self.watch.append((f"grid:{a}", getattr(fd, a),
+                                   cc.digest_value(getattr(fd, a))))
         self.last = None
 
     def canon(self):
